@@ -29,6 +29,7 @@ def run(ctx: Ctx):
     id_assignment(ctx)
     rendering_spaces(ctx)
     explicit_order(ctx)
+    position_truthiness(ctx)
 
 
 def _const(e: ast.expr) -> Any:
@@ -274,3 +275,32 @@ def explicit_order(ctx: Ctx):
     ctx.check_expr("explicit-order", f"{DIM}::_OrderSpec.element_ids", e, "tuple(self._order_dict.get('element_ids') or [])")
     e = expand(ctx.repo, os_, "collation_method", stop=lambda mm: True)
     ctx.check_expr("explicit-order", f"{DIM}::_OrderSpec.collation_method", e, "CM.PAYLOAD_ORDER if self._order_dict.get('type') is None or not CM.has_value(self._order_dict.get('type')) else CM(self._order_dict.get('type'))", "an unknown order type falls back to payload order")
+
+
+# --------------------------------------------------------------------------- position 0 is a position
+def position_truthiness(ctx: Ctx):
+    """An anchor / element position is an int whose domain includes 0 (the first element).  A truth test of a
+    position (`x if pos else bottom`, `if not idx`) sends the first element's subtotals / derived items to the
+    fallback branch.  Def-use pass over every function of the package (cubeverif/truthiness.py)."""
+    from .. import truthiness as T
+    from ..loader import AnalysisError
+
+    if T.self_check() != 3:
+        raise AnalysisError("position-truthiness: the positive control is no longer recognised")
+    class_nodes = [ci.node for mod in ctx.repo.modules.values() for ci in mod.classes.values()]
+    maps = T.position_map_members(class_nodes)
+    n_fn = n_pos = 0
+    hits = []
+    for short, mod in sorted(ctx.repo.modules.items()):
+        f, p, h = T.scan_module(mod.tree, maps)
+        n_fn += f
+        n_pos += p
+        hits += [(mod.path.split('cr/cube/')[-1],) + x for x in h]
+    ctx.count("functions scanned for truth-tested positions", n_fn)
+    ctx.count("position-valued expressions", n_pos)
+    ctx.require_min("position-valued expressions", 40)
+    for short, qual, _line, context, expr in hits:
+        ctx.violated("position-truthiness", f"{short}::{qual} [{expr[:80]}]", f"truth test ({context}) of {expr}", "comparison with None / membership test",
+                     "position 0 (the first element of the order) is falsy: its subtotals / derived items fall into the 'absent' branch")
+    if not hits:
+        ctx.held("position-truthiness", "package: every truth test", f"{n_pos} position-valued expressions, none truth-tested", "", "positive control: 3 of 3 recognised")
